@@ -38,6 +38,7 @@ def main(argv=None):
         from . import rules_axis
         rules_axis.MODEL = m
         rules_axis._RET_CACHE.clear()
+        rules_axis.DECLARED_RET.clear()
         mod.check(m, run)
         if tier == 'thorough' and not a.replay:
             from . import selftest
